@@ -13,7 +13,7 @@ META = {
     "technique": "Lean 4 proof (thread-modular inductive invariant with ghost history) + replay of real atomic traces through the model's step function + stamp oracle",
 }
 
-THEOREMS = ["C02.serial_exclusion", "C02.serial_fifo", "C02.serial_fifo_unowned", "C02.F15_sync_fast_path_overtakes"]
+THEOREMS = ["C02.serial_exclusion", "C02.serial_fifo", "C02.serial_fifo_unowned", "C02.F15_sync_fast_path_overtakes", "C02.wlh_walk_never_faults", "C02.F39_as_found"]
 
 
 def run(ctx):
